@@ -106,7 +106,7 @@ def parse_template(path):
                 segs.append(("raw", "\n".join(raw)))
                 raw = []
             cur = Block(kind, words[1:], lineno)
-            if kind in ("macro", "type", "const"):
+            if kind in ("macro", "type", "const", "lift"):
                 segs.append(("block", cur))
                 cur = None
             continue
@@ -124,7 +124,11 @@ def parse_template(path):
                 cur.subs.append(["spec", [], []])
             cur.subs[-1][2].append(txt)
             continue
-        words = shlex.split(s, posix=False)
+        if s.split(None, 1)[0] in ("cspec_text", "xexpr"):
+            # raw Rust text to the end of the line (no shell-style quoting)
+            words = s.split(None, 1)
+        else:
+            words = shlex.split(s, posix=False)
         cur.subs.append([words[0], words[1:], []])
     if cur is not None:
         raise ExtractError(f"{path}: unterminated directive block starting at line {cur.lineno}")
@@ -166,6 +170,8 @@ class Unit:
         self.sources = {}
         self.canary_points = []  # (chunk index, offset in chunk) where `proof{assert(false);}` may be inserted
         self.exec_fns = []
+        self.xexprs = {}  # helper name -> removed source text (R-XEXPR)
+        self.lift_meta = {}  # virtual rel path -> lift meta (R-LIFT)
 
     def emit(self, text):
         self.out.append(text)
@@ -201,6 +207,19 @@ def apply_fn_subs(unit, item, pc, subs_for_fn, fnargs, owner, canary):
             rsx.splice_loop(item, pc, int(sargs[0]), text, iter_name=lkv.get("iter", [None])[0])
         elif sk in ("closure", "foreach_loop"):
             pass
+        elif sk == "cspec":
+            rsx.splice_cspec(item, pc, int(sargs[0]), text)
+        elif sk == "cspec_self":
+            # cspec_self retain,all bool
+            rsx.splice_cspec_self(item, pc, set(sargs[0].split(",")), sargs[1])
+        elif sk == "cspec_text":
+            rsx.splice_cspec_text(item, pc, sargs[0], text)
+        elif sk == "xexpr":
+            # xexpr <call text> = <expression text, whitespace ignored>
+            m = re.match(r'((\w+)\([^=]*\))\s+=\s+(.*)$', sargs[0])
+            if not m:
+                raise ExtractError("bad xexpr directive")
+            unit.xexprs[m.group(2)] = rsx.rule_xexpr(item, pc, m.group(3), m.group(1))
         elif sk == "hoist":
             # hoist <loop ordinal> "<literal>" as <name>
             m = re.match(r'(\d+)\s+"(.*)"\s+as\s+(\w+)$', " ".join(sargs))
@@ -211,6 +230,8 @@ def apply_fn_subs(unit, item, pc, subs_for_fn, fnargs, owner, canary):
             rsx.splice_before(item, pc, unq(" ".join(sargs[1:])), int(sargs[0]), text, after=(sk == "after"))
         else:
             raise ExtractError(f"unknown sub-directive {sk}")
+    if "allclosures" in fnargs:
+        rsx.require_all_closures_specified(item, pc)
     if "foreach" in fnargs:
         # after the splices, so that ghost lines anchored at the end of the closure body land inside the loop body
         fe = [(sa, ls) for (sk_, sa, ls) in subs_for_fn if sk_ == "foreach_loop"]
@@ -264,6 +285,10 @@ def record_item(unit, item, rel, pc, kind, obligation=None, contract=None):
 def emit_fn(unit, item, rel, fnargs, subs, owner, canary, indent=""):
     pc = rsx.Pieces(item.src, item.start, item.end)
     text = apply_fn_subs(unit, item, pc, subs, fnargs, owner, canary)
+    if rel in unit.lift_meta:
+        lm = unit.lift_meta[rel]
+        pc.rules.append({"rule": "R-LIFT", "line": lm["lines"][0], "note": "statement range %s:%d-%d (sha256/16 %s) lifted verbatim into a method whose "
+                         "receiver/parameters are exactly its free variables %s" % (lm["file"], lm["lines"][0], lm["lines"][1], lm["sha256_16"], ",".join(lm["free_variables"]))})
     obligation = f"{unit.name}::{owner + '::' if owner else ''}{item.name}"
     first = unit.nlines + 1
     unit.emit(indent + text + "\n\n")
@@ -326,6 +351,33 @@ def build_unit(name, tpl_path, canary=False):
             a, z = mitem.lines()
             unit.items.append({"kind": "macro", "name": f"{mname}!({args})", "file": files[file_alias], "lines": [a, z],
                                "sha256_16": mitem.sha(), "rules": [{"rule": "R-MACRO", "line": a, "note": note}], "obligation": None, "contract": None})
+            continue
+        if b.kind == "lift":
+            # //@lift NEWALIAS conflict_block
+            import lift as liftmod
+            if pos[1] != "conflict_block":
+                raise ExtractError(f"{tpl_path}:{b.lineno}: unknown lift {pos[1]}")
+            text, meta = liftmod.verus_conflict_source(REPO)
+            vrel = f"{meta['file']}#lift:{pos[1]}"
+            files[pos[0]] = vrel
+            unit.sources[vrel] = rsx.Source(vrel, text=text)
+            unit.lift_meta[vrel] = meta
+            unit.items.append({"kind": "lift", "name": pos[1], "file": meta["file"], "lines": meta["lines"], "sha256_16": meta["sha256_16"],
+                               "rules": [{"rule": "R-LIFT", "line": meta["lines"][0], "note": "free variables: " + ",".join(meta["free_variables"])}],
+                               "obligation": None, "contract": None})
+            continue
+        if b.kind == "xexprfn":
+            # //@xexprfn name / signature + ASSUMED contract lines / //@end : external_body function whose body is the removed text
+            name = pos[0]
+            if name not in unit.xexprs:
+                raise ExtractError(f"{tpl_path}:{b.lineno}: xexprfn {name}: no `xexpr ... as {name}(..)` fired before this directive")
+            sig = "\n".join("\n".join(sub[2]) for sub in b.subs)
+            if not re.match(r"\s*(pub\s+)?fn\s+" + re.escape(name) + r"\b", sig):
+                raise ExtractError(f"{tpl_path}:{b.lineno}: xexprfn {name}: signature must start with `fn {name}`")
+            unit.emit("#[verifier::external_body]\n" + sig.rstrip() + "\n{\n" + unit.xexprs[name] + "\n}\n\n")
+            unit.items.append({"kind": "xexprfn", "name": name, "file": "-", "lines": [0, 0], "sha256_16": "-",
+                               "rules": [{"rule": "R-XEXPR", "line": 0, "note": "body is the verbatim expression text; contract ASSUMED", "dropped": unit.xexprs[name][:200]}],
+                               "obligation": None, "contract": sig})
             continue
         if alias not in files:
             raise ExtractError(f"{tpl_path}:{b.lineno}: unknown file alias {alias}")
@@ -498,6 +550,14 @@ def classify(unit, res, unit_text):
                     break
             if fn:
                 break
+        lemma = None
+        if fn is None and loc_lines:
+            # a failure in template text: name the enclosing proof fn (a lemma over the specification functions)
+            for ln in range(min(loc_lines[0], len(lines)), 0, -1):
+                lm = re.match(r"\s*(?:pub\s+)?(?:broadcast\s+)?proof\s+fn\s+(\w+)", lines[ln - 1])
+                if lm:
+                    lemma = f"{unit.name}::{lm.group(1)}"
+                    break
         tags = set()
         # primary location first; then every numbered line that carries a tag inside a spec clause
         for ln in loc_lines:
@@ -505,7 +565,7 @@ def classify(unit, res, unit_text):
                 m = TAG.search(lines[ln - 1])
                 if m:
                     tags.update(x.strip() for x in m.group(1).split(","))
-        entry = {"msg": msg, "fn": fn, "tags": sorted(tags), "text": "\n".join(b["lines"])[:4000],
+        entry = {"msg": msg, "fn": fn, "lemma": lemma, "tags": sorted(tags), "text": "\n".join(b["lines"])[:4000],
                  "line": loc_lines[0] if loc_lines else None}
         if any(k in msg for k in LIMIT_MSGS):
             undecided.append(entry)
